@@ -38,6 +38,7 @@ type S16D = BumpSettings<16, false>;
 include!("../coll_inc/elem.rs");
 include!("../coll_inc/ops.rs");
 include!("../coll_inc/exec.rs");
+include!("../coll_inc/split.rs");
 
 fn main() {
     let args: Vec<String> = std::env::args().collect();
@@ -56,6 +57,12 @@ fn main() {
     }));
     let mut ctx = Ctx::new(Rng::new(seed()), &profile);
     println!("# coll engine seed={} traces={traces} ops={nops} profile={profile}", seed());
+    if profile == "split" {
+        run_split_profile(&mut ctx, traces);
+        ctx.summary();
+        print!("{}", ctx.out);
+        return;
+    }
     for t in 0..traces {
         ctx.trace_no = t;
         let spec = ctx.gen_spec(nops);
